@@ -337,3 +337,16 @@ package scheduler
 //@   at[unqueue] call objects.Application.UnSetQueue#1: assert arg0 == pc.applications[appID] && arg0 != nil
 //@   holds pc.applications != pc.completedApplications
 //@   ensures[gone] old(pc.applications[appID]) != nil ==> !(appID in pc.applications) && ncalls(objects.Application.UnSetQueue) == 1
+
+// what the scheduling cycle tells the shim: a Replaced result is announced as the release of the placeholder (the real
+// allocation follows on confirmation), every other non-nil result as exactly one new allocation - the request of that
+// result, under the partition's RM id
+//@ func (cc *ClusterContext) schedule() (activity bool)
+//@   props C04
+//@   sweep
+//@   mode nopanic=off
+//@   loop 1: exhaustive
+//@   at[new] call scheduler.ClusterContext.notifyRMNewAllocation#1: assert arg0 == cc && arg1 == psc.RmID && arg2 == result.Request && result != nil && result.ResultType != objects.Replaced
+//@   at[swap] call scheduler.ClusterContext.notifyRMAllocationReleased#1: assert arg0 == cc && arg1 == psc.RmID && arg2 == psc.Name && arg4 == 4 && result.ResultType == objects.Replaced && len(arg3) == 1
+//@   at[order1] call scheduler.PartitionContext.tryPlaceholderAllocate#1: assert arg0 == psc && ncalls(scheduler.PartitionContext.tryReservedAllocate) == iter(ncalls(scheduler.PartitionContext.tryReservedAllocate)) + 1
+//@   at[order2] call scheduler.PartitionContext.tryAllocate#1: assert arg0 == psc && ncalls(scheduler.PartitionContext.tryPlaceholderAllocate) == iter(ncalls(scheduler.PartitionContext.tryPlaceholderAllocate)) + 1
